@@ -332,6 +332,10 @@ def evaluate(case):
         return ev
     from . import plx
 
+    why = plx.spec_type_inconsistency(spec)
+    if why:
+        ev.skipped = why + " (implicit precondition of a schema definition)"
+        return ev
     if plx.na_false_undefined(spec, table):
         ev.skipped = "ignore_na=False with a predicate that is true on NaN (pandas) / null on null (polars): undefined"
         return ev
